@@ -5,7 +5,7 @@
                                               b save:begin  f save:finito  m mutation begins  e mutation ends
                                               c file created  d file goroutine done  o other
     snap <mprog> <xprog> <cap> <labels>    -> ok <visible> <good:0|1> <check:0|1> <final:0|1> <hasStep:0|1>
-                                              mprog letters: c commit i idle a abort h hurry s save x close ("-" empty)
+                                              mprog letters: c commit i idle a abort h hurry s save x close u undo p purge ("-" empty)
                                               xprog letters: h hurry a abort
                                               labels: m x s (saver step) 1..9 (saver begins with k chunks) A H f E
     fan <cloned:0|1> <txs> <bad> <labels>  -> ok <early|-> <errcnt> <ref-early|-> <ref-errcnt> | run (not finished)
@@ -21,7 +21,7 @@ def monEv : Char → Option Mon.MEv
   | 'c' => some .fileCreated | 'd' => some .fileDone | 'o' => some .other | _ => none
 
 def mop : Char → Option Snap.MOp
-  | 'c' => some .commit | 'i' => some .idle | 'a' => some .abort | 'h' => some .hurry | 's' => some .save | 'x' => some .close | _ => none
+  | 'c' => some .commit | 'i' => some .idle | 'a' => some .abort | 'h' => some .hurry | 's' => some .save | 'x' => some .close | 'u' => some .undo | 'p' => some .purge | _ => none
 
 def xop : Char → Option Snap.XOp
   | 'h' => some .hurry | 'a' => some .abort | _ => none
